@@ -50,8 +50,6 @@ class PyLogger:
         if d[self.cur] >= self.max_size:
             arch = set_ext_log(self.name + "." + ts + ".log")
             d[arch] = d.pop(self.cur)
-            if self.lf:
-                return          # listing fails after the rename: nothing trimmed, nothing written
             files = sorted(n for n in d if n.startswith(self.name))
             if len(files) >= self.max_count:
                 for f in files[:len(files) - self.max_count + 1]:
@@ -136,6 +134,9 @@ def gen_log_history(rng, idx, quick, fault=None):
         names = weighted(rng, NAME_SETS)
     rf = {n for n in names if fault == "readonly" or rename_fails(n)}
     extra = gen_extras(rng, "log", names, 0.15, 0.15) if fault is None else []
+    if fault is None and rng.random() < 0.08:
+        # a sub-directory / dangling link that the logger's prefix WOULD select: not a regular file, ignored
+        extra.append(rng.choice([("mkdir", names[0] + ".0dir", "755"), ("symlink", names[0] + ".0lnk", "nowhere")]))
     lf = any(e[0] == "symlink" for e in extra)
     cfgs = {}
     for n in names:
@@ -343,7 +344,7 @@ def parse_log_result(h, res):
             rs.append(None)
         else:
             rs.append({nm: sz for nm, sz, isf in r["ls"] if isf})     # regular files only
-            if r["r"] != "ok" and o[1] not in h["rf"] and not h.get("lf"):
+            if r["r"] != "ok" and o[1] not in h["rf"]:
                 errs.append(r["r"])     # a refused write is expected only where archiving fails
     return l0, rs, errs
 
@@ -930,13 +931,9 @@ def run(ctx):
                 if len(mk) <= len(prevn):
                     trims += 1
             prevn = mk
-        why = prop_log(h, l0, rs, check_count=not h.get("lf"))
+        why = prop_log(h, l0, rs)     # at full strength in directories with un-stat-able entries too (F-C19a is fixed)
         if why:
             failures.append({"case": case, "why": why, "impl": [sorted(r.items()) for r in real[:400]]})
-        elif h.get("lf"):
-            why = prop_log(h, l0, rs)
-            if why:     # only the count bound fails, in a directory whose listing fails: F-C19a
-                failures.append({"case": case, "why": why, "known_class": "unstatable_entry_log", "impl": [sorted(r.items()) for r in real[:60]]})
     for h, (l0, rs), e, res in zip(evs, impl_ev, exp_ev, res_ev):
         case = {"kind": "event", "cap": h["cap"], "configured": h.get("configured", "n/a"), "pre": h["pre"], "ops": h["ops"],
                 "scenario": h["scenario"], "extra": h.get("extra")}
@@ -955,13 +952,9 @@ def run(ctx):
             if o[0] == "tick" and prevn is not None and mk == prevn and len(mk) >= h["cap"]:
                 drops += 1
             prevn = mk
-        why = prop_ev(h, l0, rs, check_cap=not h.get("lf"))
+        why = prop_ev(h, l0, rs)      # at full strength in directories with un-stat-able entries too (F-C19b is fixed)
         if why:
             failures.append({"case": case, "why": why, "impl": [sorted(r.items()) for r in rs if r is not None]})
-        elif h.get("lf"):
-            why = prop_ev(h, l0, rs)
-            if why:     # only the cap fails, in a directory whose listing fails: F-C19b
-                failures.append({"case": case, "why": why, "known_class": "unstatable_entry_events", "impl": [sorted(r.items()) for r in rs if r is not None]})
     for h, (l0, rs), e, res in zip(dumps, impl_dump, exp_dump, res_dump):
         case = {"kind": "dump", "pre": h["pre"], "ops": h["ops"], "scenario": h["scenario"], "extra": h.get("extra")}
         steps += len(rs)
